@@ -17,6 +17,7 @@ RULE_TEXT = "obligations = one per panic site (Assert / denylisted call), one pe
 ASSUMPTIONS = [
     "panics, overflow or non-termination INSIDE dependencies and std are not analysed (only calls of their documented-panicking APIs are tracked); an unlisted panicking API is not seen",
     "allocation failure, stack depth and capacity requests passed as caller-supplied usize (reserve, reserve_exact, with_capacity) are outside the property's string-argument quantifier: listed, not claimed",
+    "J15: TABLE[b as usize] / TABLE[usize::from(b)] for b: u8 is justified only if the table has at least 256 entries; a `const fn` that no run-time body calls (it only initialises a const item) is evaluated by the compiler, where a panic is a compile error",
     "J14: ARRAY[e as usize] is justified only if e is an enum value with default discriminants and the array is at least as long as the enum has variants",
     "J13: a string slice &s[..i] / &s[i+1..] is justified only if i is the Some-payload of s.find(c) / s.rfind(c) on the same s for a one-byte (ASCII) char constant c",
     "J12: x - c is justified only by a dominating branch condition on the same x that implies x >= c (x != 0, x > k, x >= k)",
@@ -111,9 +112,39 @@ R_DOCPANIC = {
 }
 
 
+def compile_time_only(facts):
+    """`const fn`s that no run-time body calls (their only use is the initialiser of a const/static item): the compiler
+    evaluates them, a panic or a non-terminating loop there is a compile error, not a run-time behaviour"""
+    cands = set(k for k, f in facts.fns.items() if f.get("is_const") and not f.get("reachable") and k in facts.bodies)
+    if not cands:
+        return set()
+    called = set()
+    for k, b in facts.bodies.items():
+        if b.kind not in ("fn", "closure"):
+            continue
+        root = b.j.get("root", k) if b.kind == "closure" else k
+        if root in cands:
+            continue  # calls from within the candidate itself (or its closures) do not make it run-time
+        for bb, t in b.calls(include_cleanup=True):
+            if "path" in t["callee"]:
+                called.add(callee_name(t["callee"]))
+                called.add(t["callee"]["path"])
+        for bl in b.blocks:  # fn items used as values
+            for st in bl["stmts"]:
+                if st.get("s") == "assign":
+                    txt = str(st["rv"])
+                    for c in cands:
+                        if c in txt:
+                            called.add(c)
+    return set(c for c in cands if c not in called)
+
+
 def panic_sites(facts):
     sites = []
+    cto = compile_time_only(facts)
     for k, b in facts.bodies.items():
+        if (b.j.get("root", k) if b.kind == "closure" else k) in cto:
+            continue
         for bb in range(b.n):
             if b.is_cleanup(bb):
                 continue
@@ -245,6 +276,23 @@ def justify(facts, s):
             return None, "%s: no dominating guard implies the bound (operands: %s)" % (what, ", ".join(nshow(o)[:60] for o in ops))
         if what.startswith("Overflow("):
             return None, "%s has no table justification: it needs a dominating guard that implies the bound (operands: %s)" % (what, ", ".join(nshow(o)[:60] for o in ops))
+        if what == "BoundsCheck" and len(ops) == 2 and ops[0][0] == "const" and isinstance(ops[0][1], int) and ops[0][1] >= 256:
+            # J15: TABLE[usize::from(b)] / TABLE[b as usize] with b: u8 and a table of at least 256 entries
+            idx = ops[1]
+            src = None
+            if idx[0] == "cast" and idx[1].startswith("IntToInt"):
+                src = idx[2]
+            elif idx[0] == "call" and idx[1] == "std::convert::num::<impl std::convert::From<u8> for usize>::from" and len(idx[2]) == 1:
+                return "J15", "index is usize::from(u8) < 256 <= %d" % ops[0][1]
+            if src is not None:
+                # the operand's MIR type must be u8
+                for o in t["ops"][1:]:
+                    if o["o"] in ("copy", "move") and not o["place"]["proj"]:
+                        for bl in b.blocks:
+                            for st in bl["stmts"]:
+                                if st.get("s") == "assign" and st["place"]["l"] == o["place"]["l"] and st["rv"].get("r") == "cast" and st["rv"]["op"]["o"] in ("copy", "move") and not st["rv"]["op"]["place"]["proj"]:
+                                    if b.locals[st["rv"]["op"]["place"]["l"]]["ty"] == "u8":
+                                        return "J15", "index is a u8 widened to usize < 256 <= %d" % ops[0][1]
         if what == "BoundsCheck":
             # J14: TABLE[e as usize] where e is a value of an enum with default discriminants 0..n-1 and the array has at
             # least n elements (ops = [len, index])
@@ -409,7 +457,11 @@ def rule_loop(ctx):
     facts = ctx.facts()
     n = 0
     extra = local_finite_types(facts)
+    cto = compile_time_only(facts)
     for k, b in facts.bodies.items():
+        if (b.j.get("root", k) if b.kind == "closure" else k) in cto:
+            ctx.note("%s is a const fn used only at compile time: its loops/panics are the compiler's to refuse" % k)
+            continue
         heads = models.loop_of_next(b)
         for h, blk in b.loops().items():
             n += 1
